@@ -1,21 +1,24 @@
 #!/bin/bash
 # usage: tools/seedtest.sh <worktree> <patch file> <demo.py> <seed-name> <ID> [more IDs...]
 # Confirms a seeded change (suite still passes, demo fails with / passes without it) and runs the given checks on it.
+# Result is written to /tmp/seedres/<seed-name>.txt
 WT=$1; PATCH=$2; DEMO=$3; NAME=$4; shift 4
 HERE="$(cd "$(dirname "$0")/.." && pwd)"
+OUT=/tmp/seedres; mkdir -p $OUT
 git -C $WT checkout -q -- plasTeX 2>/dev/null
-PYTHONPATH=$WT /venv/bin/python $DEMO >/dev/null 2>&1; d0=$?
-git -C $WT apply $PATCH || { echo "$NAME: patch does not apply"; exit 2; }
-$HERE/tools/baseline.py $WT > /tmp/seed-base.$$ 2>&1; b=$?
-PYTHONPATH=$WT /venv/bin/python $DEMO >/tmp/seed-demo.$$ 2>&1; d1=$?
-echo "$NAME: baseline_rc=$b demo_clean_rc=$d0 demo_patched_rc=$d1 $(tail -1 /tmp/seed-base.$$)"
-res=""
+PYTHONPATH=$WT timeout 300 /venv/bin/python $DEMO >/dev/null 2>&1; d0=$?
+if ! git -C $WT apply $PATCH 2>/dev/null; then
+  (cd $WT && patch -p1 -s --fuzz=3 < $PATCH) || { echo "$NAME: patch does not apply" | tee $OUT/$NAME.txt; git -C $WT checkout -q -- plasTeX; exit 2; }
+fi
+b=$($HERE/tools/baseline.py $WT 2>&1 | tail -1)
+PYTHONPATH=$WT timeout 300 /venv/bin/python $DEMO >/dev/null 2>&1; d1=$?
+{
+echo "$NAME: demo_clean_rc=$d0 demo_patched_rc=$d1 | $b"
 for id in "$@"; do
   out=$(cd $HERE && VP_REPO=$WT ./check $id --no-evidence 2>&1); rc=$?
-  res="$res $id:rc=$rc"
-  echo "   $id rc=$rc $(echo "$out" | grep -m1 VIOLATION)"
-  echo "$out" | grep -m3 -E "^  (case|expected|observed|detail)" | cut -c1-300 | sed 's/^/      /'
+  echo "   $id rc=$rc $(echo "$out" | grep -a -m1 VIOLATION)"
+  echo "$out" | grep -a -m4 -E "^  (case|expected|observed|detail)|HARNESS" | cut -c1-260 | sed 's/^/      /'
 done
-git -C $WT apply -R $PATCH
-rm -f /tmp/seed-base.$$ /tmp/seed-demo.$$
-echo "$NAME:$res" >> /tmp/seedtest.summary
+} > $OUT/$NAME.txt 2>&1
+git -C $WT checkout -q -- plasTeX
+cat $OUT/$NAME.txt
